@@ -33,8 +33,6 @@ var errExempt = map[string]string{
 // failure the function falls through to doing the work from scratch. Keyed by
 // enclosing function and callee, one line of reason each.
 var probeExempt = map[string]string{
-	"(*output/handlers.FileOutputHandler).Load|grog/internal/hashing.HashFile":                                                  "probe of the local file: any error means 'not present/readable', the output is then reloaded from the CAS (R06b checks the skip condition)",
-	"(*output/handlers.DirectoryOutputHandler).Load|(*grog/internal/output/handlers.DirectoryOutputHandler).getDirectoryHash":   "probe of the local directory: any error means 'reload' (R06b checks the skip condition)",
 	"(*output/handlers.DockerRegistryOutputHandler).Load|(*github.com/docker/docker/client.Client).ImageInspect":                "probe whether the image already exists in the local daemon; on error it is pulled",
 	"(*output/handlers.DockerOutputHandler).loadFromCasLayers|github.com/google/go-containerregistry/pkg/v1/daemon.Image":       "probe whether the image already exists in the local daemon; on error it is loaded from the CAS layers",
 	"(*output/handlers.DockerOutputHandler).loadFromCasLayers|(github.com/google/go-containerregistry/pkg/v1.Image).ConfigName": "part of the same local-daemon probe",
@@ -92,6 +90,11 @@ func droppedErrors(c *Check, fn *ssa.Function, extraExempt func(name string) boo
 		if _, ok := probeExempt[c.P.FuncName(fn)+"|"+name]; ok {
 			continue
 		}
+		if errorIsNegativeAnswer(fn, s) {
+			// `if v, err := probe(); err == nil && good(v) { shortcut }`: a failed probe takes the same
+			// way as a negative answer, so nothing that the probe could have vouched for is assumed
+			continue
+		}
 		if strings.HasSuffix(name, ".Close") && len(s.Common().Args) <= 1 {
 			// Close of an arbitrary closer on the success path is judged by the specific rules (R07a)
 			continue
@@ -126,6 +129,125 @@ func droppedErrors(c *Check, fn *ssa.Function, extraExempt func(name string) boo
 		}
 	}
 	return out
+}
+
+// errorIsNegativeAnswer: every branch edge taken when the call's error is non-nil leads (ignoring
+// blocks that only log) to the same block as an edge that tests the call's other result — the shape
+// short-circuit evaluation of `err == nil && ok(v)` (or its negation) produces. The error is then
+// handled exactly like the answer "no".
+func errorIsNegativeAnswer(fn *ssa.Function, s ssa.CallInstruction) bool {
+	sig := s.Common().Signature()
+	ei := engine.ErrResultIndex(sig)
+	if ei < 1 || s.Value() == nil {
+		return false
+	}
+	errSet := map[ssa.CallInstruction]int{s: ei}
+	fromOther := func(v ssa.Value) bool {
+		if v == nil {
+			return false
+		}
+		for _, o := range engine.Origins(v) {
+			if call, idx := engine.CallOf(o); call == s && idx != ei {
+				return true
+			}
+		}
+		return false
+	}
+	fromCall := func(v ssa.Value) bool {
+		if v == nil {
+			return false
+		}
+		for _, o := range engine.Origins(v) {
+			if call, _ := engine.CallOf(o); call == s {
+				return true
+			}
+		}
+		return false
+	}
+	// transparent: the block only logs, and (if it branches) branches on the probe's own results
+	transparent := func(b *ssa.BasicBlock) bool {
+		for _, in := range b.Instrs {
+			switch x := in.(type) {
+			case *ssa.DebugRef, *ssa.Jump, *ssa.MakeInterface, *ssa.Alloc, *ssa.IndexAddr, *ssa.Store, *ssa.Slice, *ssa.UnOp, *ssa.FieldAddr, *ssa.Field, *ssa.ChangeInterface, *ssa.BinOp, *ssa.Phi:
+			case *ssa.If:
+				a := engine.CondAtom(x.Cond, true)
+				if !fromCall(a.V) && !fromCall(a.Other) {
+					return false
+				}
+			case ssa.CallInstruction:
+				if !isLogOrErrCall(engine.CalleeName(x)) {
+					return false
+				}
+			default:
+				return false
+			}
+		}
+		return true
+	}
+	closure := func(start *ssa.BasicBlock) map[*ssa.BasicBlock]bool {
+		seen := map[*ssa.BasicBlock]bool{start: true}
+		work := []*ssa.BasicBlock{start}
+		for len(work) > 0 {
+			b := work[len(work)-1]
+			work = work[:len(work)-1]
+			if !transparent(b) {
+				continue
+			}
+			for _, nx := range b.Succs {
+				if !seen[nx] {
+					seen[nx] = true
+					work = append(work, nx)
+				}
+			}
+		}
+		return seen
+	}
+	var errTargets []*ssa.BasicBlock
+	negative := map[*ssa.BasicBlock]bool{}
+	for _, b := range fn.Blocks {
+		for i := range b.Succs {
+			a, ok := engine.EdgeAtom(b, i)
+			if !ok {
+				continue
+			}
+			if a.Op == "nonnil" && engine.OriginsAllFromCall(a.V, errSet, false) {
+				errTargets = append(errTargets, b.Succs[i])
+			}
+			if fromOther(a.V) || fromOther(a.Other) {
+				for x := range closure(b.Succs[i]) {
+					negative[x] = true
+				}
+			}
+		}
+	}
+	if len(errTargets) == 0 {
+		return false
+	}
+	for _, t := range errTargets {
+		// the error edge must land (through log-only blocks) on code the answer-testing edges also reach
+		ok := false
+		for x := range closure(t) {
+			if negative[x] && !transparent(x) || negative[x] && x == t {
+				ok = true
+			}
+		}
+		if !ok {
+			return false
+		}
+		// ... and on that way the function still does error-checked work before it can report success
+		// (an error must not be taken for the answer that permits the shortcut)
+		isWork := func(in ssa.Instruction) bool {
+			cs, isCall := in.(*ssa.Call)
+			if !isCall || ssa.CallInstruction(cs) == s {
+				return false
+			}
+			return engine.ErrResultIndex(cs.Common().Signature()) >= 0 && !isLogOrErrCall(engine.CalleeName(cs))
+		}
+		if short, _ := engine.PathExists(fn, nil, successReturn, engine.PathQuery{FromBlock: t, CutInstr: isWork, Shallow: true}); short {
+			return false
+		}
+	}
+	return true
 }
 
 // errForwarders: the instructions that hand the call's error value on — a
